@@ -24,6 +24,13 @@ claimed["C20"] = dict(
    note="Known finding F5 (roll-back on insufficient progress prints the discarded iterate) is listed in known_findings.txt and keyed to that call site. Stdout capture through a child process is not part of the quick tier.",
    technique="deterministic simulation: sink fault injection (short write, EINTR, hard error) with byte-exact reference output")
 
+claimed["C08"] = dict(
+   level="exploration",
+   text="History check against reference model R2 (plain unscaled copies of P, q, A, b): seeded histories of update_P/q/A/b/update_data in every argument form, valid and invalid (wrong length, out-of-range index after valid entries, pattern mismatch, presolve active), interleaved with solves cut by max_iter or by the simulated clock. After every operation: return value, internal data vs an admissible model state, KKT copy and LDL-engine copy vs data (guarded accessor). After every solve: bitwise equality with a fresh solver on the model state (equilibration off), verdict class + weak-duality objective slack vs a fresh solver and vs 'original data + one update_data' (equilibration on), and the C03 report oracle for the model data.",
+   design_ref="DESIGN.md §4 C08",
+   note="With equilibration on, verdict disagreement is judged only when the updated problem keeps a planted strictly feasible primal-dual pair (verified independently); without one the verdict is not a stable function of the data in floating point. update_b does not cap at the infinity bound as construction does; solves after such an update are compared on verdict/objective only.",
+   technique="deterministic simulation: operation histories with half-failed updates and interrupted solves vs reference model")
+
 na = {
  "C01": "validity of a Solved verdict is a pure function of (data, settings); no clock, I/O, schedule or fault participates, so a simulator has nothing to control",
  "C02": "validity of infeasibility certificates is a pure function of the input; the (tau,kappa) observer it needs is instrumentation, not a nondeterminism seam",
